@@ -1001,6 +1001,26 @@ def c13(run):
         txt = bytes(sc["text"]).decode("latin1")
         ty = next((w for w in txt.upper().split() if w in synthgen.TYPES), "?")
         run.violation("synth:%s|%s" % (ty, _re.sub(r"\d+", "N", str(why))[:140]), why + " | text: " + txt[:120], sc)
+    # the insertion clause on packets that are nearly full: what counts against the 8192-byte limit is the wire
+    # record, not the length of its notation (spec/History.tla, the step relation of insert)
+    hs = histgen.text_insert_histories()
+    hev, howner, hpath = history_events(run, hs, "synthins")
+    hbad, _ = vlib.validate(hpath, "Trace_History", "Trace_History.cfg", run.wd, len(hev), {"VIOLATION-HIST"}, shards=4)
+    run.cov["evaluations"] += len(hev)
+    run.cov["insertions_into_nearly_full_packets"] = sum(1 for l in hev if is_text_insert(l))
+    for ln, (t, why) in sorted(hbad.items()):
+        if not is_text_insert(hev[ln - 1]):
+            continue
+        e = json.loads(hev[ln - 1])
+        sc = json.loads(hs[howner[ln - 1]])
+        sc["ops"] = sc["ops"][: e.get("i", 0) + 1]
+        run.violation("insert-text|%s" % _re.sub(r"\d+", "N", str(why))[:140], why, sc)
+    run.cov["traces_validated_against_impl"] += len(hev) - len(hbad)
+
+
+def is_text_insert(line):
+    o = json.loads(line).get("o", {})
+    return o.get("op") == "insert" and "text" in o and not o.get("raw")
 
 
 # ------------------------------------------------------------------------------------------------
@@ -1477,7 +1497,7 @@ def replay(pid, path):
     elif sc.get("do") == "hist":
         events, owner, p = history_events(run, [json.dumps(sc)], "replay")
         b, _ = vlib.validate(p, "Trace_History", "Trace_History.cfg", run.wd, len(events), {"VIOLATION-HIST"}, shards=1)
-        mine = {ln: why for ln, (t, why) in b.items() if pid in classify(str(why))}
+        mine = {ln: why for ln, (t, why) in b.items() if (is_text_insert(events[ln - 1]) if pid == "C13" else pid in classify(str(why)))}
         bad = bool(mine)
         for ln, why in mine.items():
             print("  step %d: %s" % (ln, why))
